@@ -275,6 +275,7 @@ fn program_desc(uni: &[corpus::u::U], program: &[Vec<Op>]) -> Value {
 fn programs(uni: &[corpus::u::U], thorough: bool) -> Vec<Vec<Vec<Op>>> {
     let idx = |n: &str| uni.iter().position(|u| u.info.rust.starts_with(n)).unwrap();
     let (a, b, f, g, c, d, l) = (idx("UA"), idx("UB"), idx("UF"), idx("UG"), idx("UC"), idx("UD"), idx("UL"));
+    let h = idx("UH");
     use Entry::*;
     let mut ps: Vec<Vec<Vec<Op>>> = vec![
         // two threads, one export each, same file
@@ -289,6 +290,9 @@ fn programs(uni: &[corpus::u::U], thorough: bool) -> Vec<Vec<Vec<Op>>> {
         vec![vec![(f, ExportAll)], vec![(g, ExportAll)]],
         vec![vec![(d, ExportAll)], vec![(f, ExportAll)]],
         vec![vec![(c, ExportAll), (g, ExportAll)], vec![(f, ExportAll)]],
+        // shared file whose members import different names from one module
+        vec![vec![(b, ExportAll)], vec![(h, ExportAll)]],
+        vec![vec![(h, Export), (a, Export)], vec![(b, Export)]],
         // three threads, one export each
         vec![vec![(a, Export)], vec![(b, Export)], vec![(f, Export)]],
         vec![vec![(a, Export)], vec![(g, Export)], vec![(a, Export)]],
